@@ -623,6 +623,60 @@ def memory(ctx: Any) -> List[Ob]:
 RULES.append(memory)
 
 
+@rule('C15.READONLY', 'N', expect_min=3)
+def readonly(ctx: Any) -> List[Ob]:
+    """Answering one datagram does not change how the next one is answered: the functions that assemble an outgoing message
+    from the answer sets treat what they are handed as read-only.  The additionals handed to them are the very set objects
+    memoised on the registered services; an in-place `-=`, `.discard()`, `.clear()` ... on a collection reached through a
+    parameter would strip records from every later reply."""
+    R = 'C15.READONLY'
+    prog = ctx.prog
+    mod = prog.modules.get('zeroconf._handlers.answers')
+    if mod is None:
+        raise AnalysisError('anchor vanished: zeroconf._handlers.answers')
+    MUT = {'add', 'discard', 'remove', 'clear', 'update', 'pop', 'popitem', 'difference_update', 'intersection_update', 'symmetric_difference_update', 'append', 'extend', 'insert', 'sort', 'reverse', 'setdefault'}
+    obs: List[Ob] = []
+    for f in sorted(mod.functions.values(), key=lambda x: x.qual):
+        if f.cls is not None or '<locals>' in f.qual:
+            continue
+        params = set(f.params)
+        fresh: Set[str] = set()
+        derived: Set[str] = set(params)
+        changed = True
+        while changed:
+            changed = False
+            for n in walk_local_ordered(f.node):
+                if isinstance(n, ast.Assign) and len(n.targets) == 1 and isinstance(n.targets[0], ast.Name):
+                    t, v = n.targets[0].id, n.value
+                    is_fresh = isinstance(v, (ast.Dict, ast.Set, ast.List, ast.ListComp, ast.SetComp, ast.DictComp)) or (isinstance(v, ast.Call) and norm(v.func) in ('set', 'dict', 'list', 'DNSOutgoing', 'sorted', 'tuple'))
+                    if is_fresh and t not in fresh:
+                        fresh.add(t); changed = True
+                    elif not is_fresh and t not in derived and any(isinstance(x, ast.Name) and x.id in derived for x in ast.walk(v)):
+                        derived.add(t); changed = True
+                if isinstance(n, (ast.For, ast.comprehension)) and any(isinstance(x, ast.Name) and x.id in derived for x in ast.walk(n.iter)):
+                    for x in ast.walk(n.target):
+                        if isinstance(x, ast.Name) and x.id not in derived:
+                            derived.add(x.id); changed = True
+        derived -= fresh
+        # the message being built is the one parameter these functions exist to fill
+        builders = {p_ for p_ in params if p_ == 'out'}
+        sites = []
+        for n in walk_local_ordered(f.node):
+            if isinstance(n, ast.AugAssign) and isinstance(n.target, ast.Name) and n.target.id in derived - builders and isinstance(n.op, (ast.Sub, ast.BitOr, ast.BitAnd, ast.BitXor, ast.Add)):
+                sites.append((n, n.target.id, 'in-place ' + type(n.op).__name__))
+            if isinstance(n, ast.Call) and isinstance(n.func, ast.Attribute) and n.func.attr in MUT and isinstance(n.func.value, ast.Name) and n.func.value.id in derived - builders:
+                sites.append((n, n.func.value.id, '.' + n.func.attr + '()'))
+            if isinstance(n, (ast.Assign, ast.Delete)):
+                for t in (n.targets if isinstance(n, (ast.Assign, ast.Delete)) else []):
+                    if isinstance(t, ast.Subscript) and isinstance(t.value, ast.Name) and t.value.id in derived - builders:
+                        sites.append((n, t.value.id, 'item store / delete'))
+        obs.append(ob(R, f, sites[0][0] if sites else f.name, 'nothing reached through a parameter (other than the message being built) is mutated', not sites, '; '.join(f'line {n.lineno}: `{nm}` {how}' for n, nm, how in sites[:3])))
+    return obs
+
+
+RULES.append(readonly)
+
+
 @rule('C15.OPTIONAL', 'N', expect_min=1)
 def optional(ctx: Any) -> List[Ob]:
     """No attribute or item is taken from a value that may be None anywhere on the datagram-driven path: for every
